@@ -477,6 +477,16 @@ func PointOp(p *Pending) {
 	t.pend = p
 	e.schedule(t)
 	t.pend = nil
+	if p.Idle || p.Quiet {
+		// observing quiescence is causally after everything every thread has done so far
+		for _, th := range e.threads {
+			if th != t {
+				t.vc = joinVC(t.vc, th.vc)
+				t.chain = t.chain.MixH(th.chain)
+			}
+		}
+		t.tick()
+	}
 	if p.Obj != nil {
 		e.sync(t, p.Obj, HashString(p.Kind).A)
 	} else {
